@@ -244,10 +244,20 @@ ForeignUntouched(s, d) ==
         \A p \in Files(s.pre) : IsProperPrefix(q, p) => p \in Managed(s)
 OutputsNotRewritten(s, d) == \A p \in s.reused : NodeAt(d, p) = s.pre[p]
 
-RollbackOK(pre, d, cdirs) ==
+RollbackStrict(pre, d, cdirs) ==
   /\ Restrict(d, Files(d)) = Restrict(pre, Files(pre))
   /\ Dirs(pre) \subseteq Dirs(d)
   /\ Dirs(d) \subseteq Dirs(pre) \cup cdirs
+(* Known finding KF-rollback-ancestor-dirs: when a recorded created directory  *)
+(* reappears although its parent had been deleted externally, the parent -     *)
+(* created by the failed build - stays as well.                                *)
+RollbackKF(pre, d, cdirs) ==
+  /\ Restrict(d, Files(d)) = Restrict(pre, Files(pre))
+  /\ Dirs(pre) \subseteq Dirs(d)
+  /\ Dirs(d) \subseteq Dirs(pre) \cup cdirs \cup UNION {ProperAnc(c) : c \in cdirs \cap Dirs(d)}
+RollbackOK(pre, d, cdirs) ==
+  IF "KF-rollback-ancestor-dirs" \in OpenKF THEN RollbackKF(pre, d, cdirs)
+  ELSE RollbackStrict(pre, d, cdirs)
 
 CleanDisk(disk, rec) ==
   RemoveEmptyDirs(Remove(disk, {CachePath} \cup {p \in rec.outs : IsFile(disk, p)}), rec.cdirs)
@@ -385,7 +395,11 @@ CheckClean(s, e) ==
 
 (* Known findings (still-open genuine defects), named by their exact shape.  *)
 KnownFinding(s, e) ==
-  IF e.ev = "invoke" /\ s.pend.on /\ s.pend.lk.valid /\ ~s.pend.lk.fuzzy /\ s.pend.lk.kfHidden
+  IF e.ev = "build_end" /\ s.ph = "build" /\ e.out = "raised"
+     /\ "KF-rollback-ancestor-dirs" \in OpenKF
+     /\ ~RollbackStrict(s.pre, FsOf(e.disk), s.rec.cdirs)
+  THEN "KF-rollback-ancestor-dirs"
+  ELSE IF e.ev = "invoke" /\ s.pend.on /\ s.pend.lk.valid /\ ~s.pend.lk.fuzzy /\ s.pend.lk.kfHidden
      /\ "KF-hidden-foreign-target" \in OpenKF
   THEN "KF-hidden-foreign-target"
   ELSE ""
